@@ -52,6 +52,11 @@ def scenarios(draw):
     if src.bool(0.25):
         for e in exps:
             e["given"] = src.choice(["A", "A", "B", "OUT2", "OUT3"])
+    elif src.bool(0.15):
+        # names that YAML reads as numbers (time points, years)
+        for i, e in enumerate(exps):
+            e["given"] = 2024 + i
+            e["numeric_name"] = True
     # feature ids that table readers like to take for missing values
     if src.bool(0.2):
         # ... or for quoted fields (an embedded double quote survives GTF parsing: gene_id "G"3"; gives G"3)
@@ -92,7 +97,8 @@ def scenarios(draw):
     sc["reads"] = allreads
     sc["experiments"] = exps
     sc["order"] = src.shuffle(list(range(ne)))
-    sc["input_kind"] = "yaml" if sc.get("short_reads") else src.choice(["yaml", "yaml", "bam_list"])
+    sc["input_kind"] = "yaml" if sc.get("short_reads") or any(e.get("numeric_name") for e in exps) else \
+        src.choice(["yaml", "yaml", "bam_list"])
     sc["threads"] = src.choice([1, 1, 2, 4])
     sc["opts"] = ["--data_type", src.choice(["nanopore", "pacbio_ccs"]), "--no_gzip"]
     if src.bool(0.3):
@@ -212,7 +218,7 @@ def evaluate(case, ctx):
                    if "Duplicate folder prefix" in l and "will change to " in l]
         seen_names = set()
         for e in exps:
-            nm = e.get("given", e["name"])
+            nm = str(e.get("given", e["name"]))
             if nm in seen_names:
                 if not renames:
                     ctx.violation("C10:repeated-experiment-name-not-renamed", {"name": nm}, case)
